@@ -151,4 +151,117 @@ Proof.
   rewrite tinv_S. unfold inv_body. rewrite Hl, Hft. reflexivity.
 Qed.
 
+(** ** evaluation of a short prefix [pre] followed by any continuation *)
+Definition EP (pre : list ainstr) (s : store) (l st : list val) (T : list event) (r : res) : Prop :=
+  match r with
+  | RNormal s' l' st' =>
+      forall tail T2 r2, ES tail s' l' st' T2 r2 -> ES (pre ++ tail) s l st (T ++ T2) r2
+  | _ => forall tail, ES (pre ++ tail) s l st T r
+  end.
+
+Lemma EP1 i s l st T r : EI i s l st T r -> EP [i] s l st T r.
+Proof.
+  intro H. destruct r; cbn [EP app]; intros; first [eapply ES_cons_normal; eassumption | apply ES_cons_stop; auto].
+Qed.
+
+Lemma EP2n i1 i2 s l st T1 s1 l1 st1 T2 r :
+  EI i1 s l st T1 (RNormal s1 l1 st1) -> EI i2 s1 l1 st1 T2 r -> EP [i1; i2] s l st (T1 ++ T2) r.
+Proof.
+  intros H1 H2. destruct r; cbn [EP app]; intros; rewrite <- ?app_assoc;
+    (eapply ES_cons_normal; [exact H1|]);
+    first [eapply ES_cons_normal; eassumption | apply ES_cons_stop; auto].
+Qed.
+
+Lemma EP2s i1 i2 s l st T r :
+  EI i1 s l st T r -> is_normal r = false -> EP [i1; i2] s l st T r.
+Proof.
+  intros H Hn. destruct r; try discriminate; cbn [EP app]; intros; apply ES_cons_stop; auto.
+Qed.
+
+Lemma EP_stop pre s l st T r tail : EP pre s l st T r -> is_normal r = false -> ES (pre ++ tail) s l st T r.
+Proof. destruct r; try discriminate; cbn [EP]; auto. Qed.
+
+(** instructions that neither branch nor call *)
+Definition simple_b (b : binstr) : bool :=
+  match b with
+  | BBr _ | BBrIf _ | BBrTable _ _ | BReturn | BCall _ | BCallIndirect _ => false
+  | _ => true
+  end.
+Definition res_of_step (x : step_result) : res :=
+  match x with inr (s', l', st') => RNormal s' l' st' | inl true => RTrap | inl false => RStuck end.
+Definition simple_events (o : origin) (b : binstr) : list event :=
+  match b with BTick n => EvTick n :: ev_work o | _ => ev_work o end.
+
+Lemma instr_body_simple rs ri rv o b s l st :
+  simple_b b = true ->
+  instr_body cap m afs rs ri rv s l st (ABasic o b) =
+  (simple_events o b, res_of_step (exec_simple cap b s l st)).
+Proof. destruct b; try discriminate; reflexivity. Qed.
+
+Lemma EI_simple o b s l st :
+  simple_b b = true -> EI (ABasic o b) s l st (simple_events o b) (res_of_step (exec_simple cap b s l st)).
+Proof.
+  intro Hb. exists 1%nat. intros f Hf. destruct f as [|f]; [lia|]. rewrite tinstr_S. apply instr_body_simple; exact Hb.
+Qed.
+
+(** an invocation never returns a branch or a normal [res] on the left *)
+Lemma tinv_inl_shape f s fi args T r0 :
+  tinv f s fi args = (T, inl r0) -> r0 = RTrap \/ r0 = RStuck \/ r0 = RFuel.
+Proof.
+  destruct f as [|f]; [intro H; inversion H; auto|].
+  rewrite tinv_S. unfold inv_body.
+  destruct (fi <? length (m_imports m))%nat.
+  - destruct (afunc_type m afs fi); [|intro H; inversion H; auto].
+    destruct (host fi args (s_mem s)); intro H; inversion H; auto.
+  - destruct (nth_opt afs _) as [fn|]; [|intro H; inversion H; auto].
+    destruct (nth_opt (m_types m) _) as [ft|]; [|intro H; inversion H; auto].
+    destruct (tseq f s _ [] (af_body fn)) as [t r].
+    assert (F : forall s' vs t2 r2, fin_result ft s' vs = (t2, inl r2) -> r2 = RStuck).
+    { intros s' vs t2 r2. unfold fin_result. destruct (ft_result ft); [destruct vs|]; intro H; inversion H; reflexivity. }
+    destruct r as [s' l' vs|[|k] s' l' vs|s' vs| | |];
+      try (destruct (fin_result ft s' vs) as [t2 [r2|x]] eqn:Ef; intro H; inversion H; subst; right; left; eapply F; eassumption);
+      intro H; inversion H; auto.
+Qed.
+
+(** branches *)
+Lemma EI_br o k s l st : EI (ABasic o (BBr k)) s l st (ev_work o) (RBr k s l st).
+Proof. exists 1%nat. intros f Hf. destruct f as [|f]; [lia|]. reflexivity. Qed.
+Lemma EI_return o s l st : EI (ABasic o BReturn) s l st (ev_work o) (RReturn s st).
+Proof. exists 1%nat. intros f Hf. destruct f as [|f]; [lia|]. reflexivity. Qed.
+Lemma EI_brif o k s l c st :
+  EI (ABasic o (BBrIf k)) s l (VI32 c :: st)
+     (if c =? 0 then ev_work o else ev_work o ++ ev_taken o)
+     (if c =? 0 then RNormal s l st else RBr k s l st).
+Proof.
+  exists 1%nat. intros f Hf. destruct f as [|f]; [lia|]. rewrite tinstr_S. cbn [instr_body].
+  destruct (c =? 0); reflexivity.
+Qed.
+Lemma EI_brtable o ls d s l c st :
+  EI (ABasic o (BBrTable ls d)) s l (VI32 c :: st) (ev_work o)
+     (RBr (if c <? Z.of_nat (length ls)
+           then match nth_opt ls (Z.to_nat c) with Some k => k | None => d end
+           else d) s l st).
+Proof. exists 1%nat. intros f Hf. destruct f as [|f]; [lia|]. reflexivity. Qed.
+
+Lemma EI_call_indirect_undef o ti s l c st0 ft :
+  nth_opt (m_types m) ti = Some ft ->
+  match (if c <? Z.of_nat (length (s_table s)) then nth_opt (s_table s) (Z.to_nat c) else None) with
+  | Some (Some _) => False | _ => True end ->
+  EI (ABasic o (BCallIndirect ti)) s l (VI32 c :: st0) (ev_work o) RTrap.
+Proof.
+  intros Hty Htab. exists 1%nat. intros f Hf. destruct f as [|f]; [lia|].
+  rewrite tinstr_S. cbn [instr_body]. rewrite Hty.
+  destruct (if c <? Z.of_nat (length (s_table s)) then nth_opt (s_table s) (Z.to_nat c) else None) as [[fi|]|];
+    [contradiction|reflexivity|reflexivity].
+Qed.
+Lemma EI_call_indirect_mismatch o ti s l c st0 ft fi ft' :
+  nth_opt (m_types m) ti = Some ft ->
+  (if c <? Z.of_nat (length (s_table s)) then nth_opt (s_table s) (Z.to_nat c) else None) = Some (Some fi) ->
+  afunc_type m afs fi = Some ft' -> functype_eqb ft ft' = false ->
+  EI (ABasic o (BCallIndirect ti)) s l (VI32 c :: st0) (ev_work o ++ ev_call m fi) RTrap.
+Proof.
+  intros Hty Htab Hft Heq. exists 1%nat. intros f Hf. destruct f as [|f]; [lia|].
+  rewrite tinstr_S. cbn [instr_body]. rewrite Hty, Htab, Hft, Heq. reflexivity.
+Qed.
+
 End Eval.
